@@ -304,6 +304,9 @@ fn seam_condition(g: &DDesc, h: &DDesc) -> &'static str {
 fn pclass(e: &Caught) -> String {
     match e {
         Caught::Panic { msg, .. } => {
+            if msg.starts_with("index out of bounds") {
+                return "panic:index out of bounds".into();
+            }
             let m: String = msg.chars().filter(|c| !c.is_ascii_digit()).take(44).collect();
             format!("panic:{}", m.trim())
         }
@@ -372,25 +375,31 @@ impl Pair {
 }
 
 fn check_plug<G1: GraphLike, G2: GraphLike>(family: &'static str, index: u64, bk: &str, p: &Pair, expect: &Tens) {
-    let c = ctx();
     let cond = seam_condition(&p.g, &p.h);
-    let (mut g, _) = p.g.build::<G1>(p.scr_g);
+    let (g, _) = p.g.build::<G1>(p.scr_g);
     let (h, _) = p.h.build::<G2>(p.scr_h);
+    check_plug_graphs(family, index, bk, g, &h, cond, expect, &p.json());
+}
+
+/// `g.plug(&h)` on already built operands; `input` is the serialised case.
+fn check_plug_graphs<G1: GraphLike, G2: GraphLike>(family: &'static str, index: u64, bk: &str, mut g: G1, h: &G2, cond: &str, expect: &Tens, input: &Value) {
+    let c = ctx();
     let g_inputs = g.inputs().clone();
-    let h_before = snap(&h).ok();
+    let n_out = h.outputs().len();
+    let h_before = snap(h).ok();
     c.count(&format!("op:plug:{bk}"), 1);
     c.count(&format!("plug:seam:{cond}"), 1);
-    let detail = |what: &str, extra: Value| json!({"op": "g.plug(&h)", "what": what, "backends": bk, "pair": p.json(), "seam": cond, "extra": extra});
-    match guarded(|| g.plug(&h)) {
+    let detail = |what: &str, extra: Value| json!({"op": "g.plug(&h)", "what": what, "backends": bk, "pair": input, "seam": cond, "extra": extra});
+    match guarded(|| g.plug(h)) {
         Err(Caught::Oracle(m)) => c.inconclusive("oracle-error", json!({"msg": m})),
         Err(e) => c.violation(&format!("plug|{}|{cond}", pclass(&e)), family, index, detail("panic", json!(e.text()))),
         Ok(()) => {
-            if let (Some(a), Ok(b)) = (&h_before, snap(&h)) {
+            if let (Some(a), Ok(b)) = (&h_before, snap(h)) {
                 if !same_snap(a, &b) {
                     c.violation("plug|argument-modified", family, index, detail("`other` changed", json!(null)));
                 }
             }
-            if *g.inputs() != g_inputs || g.outputs().len() != p.h.outputs.len() {
+            if *g.inputs() != g_inputs || g.outputs().len() != n_out {
                 c.violation(
                     &format!("plug|boundary-lists-wrong|{cond}"),
                     family,
@@ -490,6 +499,57 @@ fn pair_case(family: &'static str, index: u64, r: &mut Rng, g: DDesc, h: DDesc) 
     c.case(family, if nontrivial { Some(hsh) } else { None });
     c.evals(7);
     c.sample_n(3, || json!({"family": family, "index": index, "pair": p.json()}));
+}
+
+/// Family (c): operands derived from circuits. quizx's own translation is used only as an
+/// input generator: the expected value is computed from the evaluator applied to the very
+/// operands. Variants: plain, first operand adjointed (the composition the equality checker
+/// builds), basis states plugged into the first operand's inputs.
+fn circuit_pair_case(family: &'static str, index: u64, r: &mut Rng, max_q: usize, max_d: usize) {
+    use crate::gen::circuit::{circ_json, gen_circuit, to_quizx, CircParams, PhPool};
+    let c = ctx();
+    let pool = if r.chance(0.75) { PhPool::Exact } else { PhPool::Float };
+    let n = 1 + r.below(max_q);
+    let mut p = CircParams::unitary(n, max_d, pool);
+    p.min_qubits = n;
+    let (ca, cb) = (gen_circuit(r, &p), gen_circuit(r, &p));
+    let (qa, qb) = (to_quizx(&ca), to_quizx(&cb));
+    let variant = r.below(3);
+    let states: Vec<BasisElem> = (0..n).map(|_| *r.pick(&ALL_ELEMS)).collect();
+    fn mk<G: GraphLike>(q: &quizx::circuit::Circuit, variant: usize, states: &[BasisElem], first: bool) -> G {
+        let mut g: G = q.to_graph();
+        if first {
+            match variant {
+                1 => g.adjoint(),
+                2 => g.plug_inputs(states),
+                _ => {}
+            }
+        }
+        g
+    }
+    let vname = ["to_graph", "to_graph then adjoint", "to_graph then plug_inputs"][variant];
+    let input = json!({"circuit_g": circ_json(&ca), "circuit_h": circ_json(&cb), "variant": vname, "states": elems(&states)});
+    let Ok((g0, h0)) = guarded(|| (mk::<VG>(&qa, variant, &states, true), mk::<VG>(&qb, variant, &states, false))) else {
+        c.skipped();
+        return;
+    };
+    let (Some(eg), Some(eh)) = (eval_operand(&g0, "g"), eval_operand(&h0, "h")) else {
+        return;
+    };
+    let (gi, go, hi, ho) = (g0.inputs().len(), g0.outputs().len(), h0.inputs().len(), h0.outputs().len());
+    let composed = t_compose(&eg, gi, go, &eh, hi, ho);
+    let cond = "circuit-derived";
+    let h_hash: HG = mk(&qb, variant, &states, false);
+    check_plug_graphs(family, index, "vec<-vec", mk::<VG>(&qa, variant, &states, true), &h0, cond, &composed, &input);
+    check_plug_graphs(family, index, "vec<-hash", mk::<VG>(&qa, variant, &states, true), &h_hash, cond, &composed, &input);
+    check_plug_graphs(family, index, "hash<-vec", mk::<HG>(&qa, variant, &states, true), &h0, cond, &composed, &input);
+    check_plug_graphs(family, index, "hash<-hash", mk::<HG>(&qa, variant, &states, true), &h_hash, cond, &composed, &input);
+    c.count(&format!("plug:seam-width:{go}"), 1);
+    c.count(if composed.is_exact() { "oracle:exact" } else { "oracle:float" }, 1);
+    let hsh = hash_bytes(format!("{family}{ca:?}{cb:?}{variant}{states:?}").as_bytes());
+    c.case(family, if !ca.gates.is_empty() || !cb.gates.is_empty() { Some(hsh) } else { None });
+    c.evals(3);
+    c.sample_n(8, || json!({"family": family, "index": index, "pair": input}));
 }
 
 // ------------------------------------------------------------------------------------
@@ -1071,6 +1131,11 @@ pub fn run() {
         let g = gen_shaped(r, &sg, gi, m);
         let h = gen_shaped(r, &sh, m, ho);
         pair_case("plug-caps-cups", i, r, g, h);
+    });
+
+    let (cq, cd) = t.pick((3usize, 10usize), (4usize, 16usize));
+    par_cases("plug-circuit-derived", n_pairs / 2, move |r, i| {
+        circuit_pair_case("plug-circuit-derived", i, r, cq, cd);
     });
 
     let n_un = t.pick(1200usize, 15_000usize);
